@@ -87,7 +87,7 @@ def main():
     if entries:
         i, h, ops, hr = entries[len(entries) // 3]
         chk.sample({"schema": S.to_prophy(cases[i][2]), "history": ops[:5]})
-    return chk.finish(level="exploration")
+    return chk.finish(level="proof")
 
 
 if __name__ == "__main__":
